@@ -31,7 +31,8 @@ ASSUMPTIONS = ["demes are created only by _do_sprout (C05 R05.5)"]
 
 
 def _mentions_option(e: ast.AST) -> bool:
-    return any(isinstance(n, ast.Constant) and n.value == "hibernation" for n in ast.walk(e))
+    """the option key as a literal, or through a constant / helper named after it (HIBERNATION_OPTION, hibernation_enabled())"""
+    return any((isinstance(n, ast.Constant) and n.value == "hibernation") or (isinstance(n, ast.Name) and "hibernation" in n.id.lower() and n.id.isupper()) or (isinstance(n, ast.Attribute) and "hibernation" in n.attr.lower() and n.attr != "_hibernating" and not n.attr.lower().startswith(("_hibernating", "is_hibernating"))) for n in ast.walk(e))
 
 
 def _mentions_flag(e: ast.AST) -> bool:
@@ -82,6 +83,10 @@ def r18_1(ctx: Ctx):
             hib = [x for x in dl["filters"] if "_hibernating" in x]
             if hib:
                 return [ctx.ob("R18.1", f, L["stmt"], status=INCONCLUSIVE, detail=f"the demes to step come from `{norm(it)}`, whose filter `{hib[0][:80]}` already tests the hibernation flag: the skip condition is not in the loop this rule follows", construct="listing-tests-flag")]
+    # the flag is read to PRE-SELECT the demes (a mask / index set built before the loop) instead of being tested per iteration
+    flag_reads = [x for x in body_walk(f.node) if isinstance(x, ast.Attribute) and x.attr == "_hibernating" and isinstance(x.ctx, ast.Load)]
+    if flag_reads and not any(_mentions_flag(n.ast) for n in cfg.nodes if n.kind == "cond" and n.ast is not None):
+        return [ctx.ob("R18.1", f, flag_reads[0], status=INCONCLUSIVE, detail="the hibernation flags are read into a selection (mask / index set) computed outside the stepping loop's tests: which demes it leaves out is not followed", construct="preselection")]
     from .common import opaque_deme_calls
 
     oc = opaque_deme_calls(ctx, f, f.node, "_hibernating")
@@ -322,6 +327,9 @@ def r18_3(ctx: Ctx):
             continue
     loops = {id(cfg.loop_of(n)["stmt"]): cfg.loop_of(n)["stmt"] for n, _ in stores if cfg.loop_of(n) is not None}
     for loop in loops.values():
+        if not isinstance(loop, ast.For):
+            obs.append(ctx.ob("R18.3", f, loop, status=INCONCLUSIVE, detail="the hibernation flags are rewritten in a `while` loop: which demes it ranges over is not followed", construct="range:while"))
+            continue
         src = _core_iter(loop.iter)
         srcs = [src]
         if isinstance(src, ast.Name) and src.id in defs:
@@ -458,6 +466,9 @@ def r18_4(ctx: Ctx):
     for L in flag_loops:
         loop = L["stmt"]
         head = L["head"]
+        if not isinstance(loop, ast.For):
+            obs.append(ctx.ob("R18.4", f, loop, status=INCONCLUSIVE, detail="the hibernation flags are rewritten in a `while` loop: whether its demes are a snapshot taken before sprouting is not followed", construct="snapshot:while"))
+            continue
         it = loop.iter
         reads_accessor_now = any(is_self_attr(x, None, selfn) and x.attr in ("active_non_leaves", "active_demes", "all_demes", "levels", "_levels", "leaves") for x in ast.walk(it))
         after_sprout = any(cfg.can_reach(sn, head) for sn in sprout_nodes)
